@@ -26,16 +26,29 @@ use vharness::util::*;
 const HEADER: &str = "From RV Require Import Corr.C03.\nLocal Open Scope string_scope.\nLocal Open Scope N_scope.\nLocal Open Scope list_scope.";
 const SHARD_COUNTS: [usize; 3] = [2, 3, 16];
 
+/// The time source of an instance: a counter the harness advances (only in 'ttl' cases). The
+/// 1-shard and the N-shard instance of a case share one clock, so they see the same time.
 #[derive(Clone)]
-struct FixedTime;
-impl TimeSource for FixedTime {
-    fn now_millis(&self) -> u64 {
-        1_700_000_000_000
+struct Clock(std::sync::Arc<std::sync::atomic::AtomicU64>);
+impl Clock {
+    fn new() -> Clock {
+        Clock(std::sync::Arc::new(std::sync::atomic::AtomicU64::new(1_700_000_000_000)))
+    }
+    fn advance(&self, ms: u64) {
+        self.0.fetch_add(ms, std::sync::atomic::Ordering::SeqCst);
     }
 }
-type State = ShardedActorState<FixedTime>;
+impl TimeSource for Clock {
+    fn now_millis(&self) -> u64 {
+        self.0.load(std::sync::atomic::Ordering::SeqCst)
+    }
+}
+type State = ShardedActorState<Clock>;
+fn instance_at(n: usize, clock: &Clock) -> State {
+    ShardedActorState::with_config_and_time_source(ShardConfig::with_shards(n), clock.clone())
+}
 fn instance(n: usize) -> State {
-    ShardedActorState::with_config_and_time_source(ShardConfig::with_shards(n), FixedTime)
+    instance_at(n, &Clock::new())
 }
 
 // ---------------------------------------------------------------- requests
@@ -48,6 +61,11 @@ enum Rq {
     PooledSet(String, Vec<u8>),
     PipeGet(Vec<String>),
     PipeSet(Vec<(String, Vec<u8>)>),
+    /// the clock moves on by the given ms (done by the case loop, once for both instances), then one
+    /// TTL-manager tick: `evict_expired_all_shards()`; the reply is the number of evicted keys
+    Tick(u64),
+    /// the clock moves on without a tick (only with --free_time 1)
+    Advance(u64),
 }
 
 fn b(k: &str) -> bytes::Bytes {
@@ -64,6 +82,8 @@ async fn run_one(st: &State, r: &Rq) -> RespValue {
         Rq::PipeSet(kvs) => RespValue::Array(Some(
             st.fast_batch_set_pipeline(kvs.iter().map(|(k, v)| (b(k), bytes::Bytes::copy_from_slice(v))).collect()).await,
         )),
+        Rq::Tick(_) => RespValue::Integer(st.evict_expired_all_shards().await as i64),
+        Rq::Advance(_) => RespValue::simple("OK"),
     }
 }
 
@@ -200,6 +220,7 @@ fn rq_term(r: &Rq) -> Option<String> {
         Rq::PooledSet(k, v) => format!("(PS {} {})", hk(k), chex(v)),
         Rq::PipeGet(ks) => format!("(BG {})", clist(ks.iter(), |k| hk(k))),
         Rq::PipeSet(kvs) => format!("(BS {})", clist(kvs.iter(), |(k, v)| format!("({}, {})", hk(k), chex(v)))),
+        Rq::Tick(_) | Rq::Advance(_) => return None, // time is outside the Coq model
     })
 }
 fn lossy(v: &[u8]) -> String {
@@ -211,7 +232,10 @@ fn rq_text(r: &Rq) -> String {
     match r {
         Rq::Gen(c) => {
             let vals: Vec<String> = match c {
-                Command::Set { value, .. } => vec![lossy(value.as_bytes())],
+                Command::Set { value, ex, px, .. } => vec![lossy(value.as_bytes()), format!("ex={:?} px={:?}", ex, px)],
+                Command::Expire { seconds, .. } => vec![format!("{}", seconds)],
+                Command::PExpire { milliseconds, .. } => vec![format!("{}", milliseconds)],
+                Command::Ttl(_) | Command::Pttl(_) | Command::Persist(_) => vec![],
                 Command::SetNx(_, v) | Command::Append(_, v) | Command::GetSet(_, v) | Command::Echo(v) => vec![lossy(v.as_bytes())],
                 Command::LPush(_, vs) | Command::RPush(_, vs) => vs.iter().map(|v| lossy(v.as_bytes())).collect(),
                 Command::MSet(kvs) | Command::MSetNx(kvs) => kvs.iter().map(|(_, v)| lossy(v.as_bytes())).collect(),
@@ -232,6 +256,8 @@ fn rq_text(r: &Rq) -> String {
         Rq::PooledSet(k, v) => format!("pooled_fast_set({:?}, {})", k, lossy(v)),
         Rq::PipeGet(ks) => format!("fast_batch_get_pipeline({:?})", ks),
         Rq::PipeSet(kvs) => format!("fast_batch_set_pipeline({})", kv(kvs)),
+        Rq::Tick(ms) => format!("clock += {} ms; evict_expired_all_shards()", ms),
+        Rq::Advance(ms) => format!("clock += {} ms", ms),
     }
 }
 fn show(v: &RespValue) -> String {
@@ -254,6 +280,8 @@ fn rq_kind(r: &Rq) -> String {
         Rq::PooledSet(..) => "pooled_fast_set".into(),
         Rq::PipeGet(_) => "fast_batch_get_pipeline".into(),
         Rq::PipeSet(_) => "fast_batch_set_pipeline".into(),
+        Rq::Tick(_) => "tick:evict_expired_all_shards".into(),
+        Rq::Advance(_) => "clock-advance-without-tick".into(),
     }
 }
 
@@ -414,6 +442,49 @@ impl Ctx {
     }
 }
 
+/// KEYS / SCAN MATCH patterns over the whole grammar of CommandExecutor::glob_match: literals (a
+/// key name), `*`, `?`, classes with ranges and negation - alone, combined, and as the ONLY construct
+/// of the pattern - degenerate classes, and `\` (a literal for this matcher). The class patterns
+/// match the plain pool names (k<n>, d<n>, "k", "d"), so their matches spread over several shards.
+fn gen_pattern(rng: &mut Rng, c: &Ctx) -> String {
+    const FIXED: [&str; 40] = [
+        "*", "k*", "d*", "?", "*1", "k?", "??", "k??", "*{*", "*}",
+        // classes only (no `*`, no `?`)
+        "k[0-9]", "k[0-9][0-9]", "d[0-9][0-9]", "[kd][0-9]", "[kd][0-9][0-9]", "[kd]", "[k]", "[^k]", "[^x][0-9][0-9]",
+        "k[0-4][0-9]", "k[5-9][0-9]", "[a-z][0-9][0-9]", "[a-z][^a-z]", "k[13579]", "k[1-35-7]", "[d-k][0-9]", "k[^0-4][0-9]",
+        "user:profile:00000000000[0-7]", "[u]ser:profile:00000000000[^0]", "queue:pending:000000000[0-5]",
+        // classes mixed with wildcards
+        "[kd]*", "[^k]*", "k[0-9]*", "*[0-9]", "?[0-9]", "[kd]?", "*[^0-9]",
+        // degenerate classes and the backslash
+        "k[", "[z-a]", "k\\*",
+    ];
+    match rng.gen_range(0..10) {
+        0 => c.any(rng),
+        1 | 2 => {
+            // a key of the case with one byte replaced by a class that contains it
+            let k = c.any(rng);
+            let cs: Vec<char> = k.chars().collect();
+            let idx: Vec<usize> = (0..cs.len()).filter(|&i| cs[i].is_ascii_alphanumeric()).collect();
+            if idx.is_empty() {
+                return "[^k]*".into();
+            }
+            let i = idx[rng.gen_range(0..idx.len())];
+            let ch = cs[i];
+            let class = match rng.gen_range(0..4) {
+                0 => format!("[{}]", ch),
+                1 => if ch.is_ascii_digit() { "[0-9]".to_string() } else { "[a-z]".to_string() },
+                2 => "[^ ]".to_string(),
+                _ => format!("[x{}-{}]", ch, ch),
+            };
+            let mut p: String = cs[..i].iter().collect();
+            p.push_str(&class);
+            p.extend(cs[i + 1..].iter());
+            // (names with '[' , '*', '?' are not in the pools, so the rest of the name is literal)
+            p
+        }
+        _ => FIXED[rng.gen_range(0..FIXED.len())].to_string(),
+    }
+}
 /// requests every shard count must answer alike (SingleHome): single-key commands on every path
 /// and the fan-out commands of the dispatcher
 fn gen_single_home(rng: &mut Rng, c: &Ctx) -> Rq {
@@ -451,11 +522,7 @@ fn gen_single_home(rng: &mut Rng, c: &Ctx) -> Rq {
         }
         84..=88 => Rq::Gen(Command::Del(c.some(rng, 0, 3, false))),
         89..=92 => Rq::Gen(Command::Exists(c.some(rng, 0, 3, false))),
-        93..=95 => {
-            let pats = ["*", "k*", "d*", "?", "*1", "k?"];
-            let p = if rng.gen_bool(0.2) { c.any(rng) } else { pats[rng.gen_range(0..pats.len())].to_string() };
-            Rq::Gen(Command::Keys(p))
-        }
+        93..=95 => Rq::Gen(Command::Keys(gen_pattern(rng, c))),
         96..=97 => Rq::Gen(Command::DbSize),
         98 => Rq::Gen(if rng.gen_bool(0.5) { Command::FlushDb } else { Command::FlushAll }),
         _ => Rq::Gen(if rng.gen_bool(0.5) { Command::Ping(None) } else { Command::Echo(sds(rng)) }),
@@ -521,6 +588,76 @@ fn gen_wide(rng: &mut Rng, c: &Ctx) -> Rq {
         _ => Command::ZRem(k, vec![m(rng)]),
     })
 }
+fn set_ttl(k: String, v: SDS, ex: Option<i64>, px: Option<i64>) -> Command {
+    Command::Set { key: k, value: v, ex, px, exat: None, pxat: None, nx: false, xx: false, get: false, keepttl: false }
+}
+fn px_choice(rng: &mut Rng) -> i64 {
+    [1, 50, 100, 150, 1000, 2500][rng.gen_range(0..6)]
+}
+/// expiring keys: SET..PX/EX, EXPIRE/PEXPIRE/PERSIST, TTL/PTTL, reads through every entry point, and
+/// the passage of time. Unless --free_time 1, time only moves together with a TTL-manager tick (every
+/// shard is told the new time), which is the regime in which the shards' clocks agree.
+fn gen_ttl(rng: &mut Rng, c: &Ctx, free_time: bool) -> Rq {
+    let k = c.s(rng);
+    match rng.gen_range(0..100) {
+        0..=13 => Rq::Gen(set_ttl(k, sds(rng), None, Some(px_choice(rng)))),
+        14..=19 => Rq::Gen(set_ttl(k, sds(rng), Some(rng.gen_range(1..4)), None)),
+        20..=25 => Rq::Gen(Command::PExpire { key: c.any(rng), milliseconds: px_choice(rng), nx: false, xx: false, gt: false, lt: false }),
+        26..=29 => Rq::Gen(Command::expire(c.any(rng), rng.gen_range(1..4))),
+        30..=32 => Rq::Gen(Command::Persist(k)),
+        33..=36 => Rq::Gen(Command::Ttl(c.any(rng))),
+        37..=40 => Rq::Gen(Command::Pttl(c.any(rng))),
+        41..=54 => {
+            let dt = [1u64, 49, 50, 100, 101, 1000, 3000][rng.gen_range(0..7)];
+            if free_time && rng.gen_bool(0.5) { Rq::Advance(dt) } else { Rq::Tick(dt) }
+        }
+        55..=60 => Rq::Gen(Command::Get(k)),
+        61..=67 => Rq::FastGet(k),
+        68..=73 => Rq::PooledGet(k),
+        74..=78 => Rq::PipeGet(c.some(rng, 1, 4, false)),
+        79..=82 => Rq::FastSet(k, val(rng)),
+        83..=85 => Rq::PooledSet(k, val(rng)),
+        86..=87 => Rq::PipeSet(vec![(k, val(rng))]),
+        88..=89 => Rq::Gen(Command::MGet(c.some(rng, 1, 4, false))),
+        90..=91 => Rq::Gen(Command::Exists(c.some(rng, 1, 3, false))),
+        92..=93 => Rq::Gen(Command::DbSize),
+        94..=95 => Rq::Gen(Command::Keys(gen_pattern(rng, c))),
+        96 => Rq::Gen(Command::Scan { cursor: 0, pattern: None, count: Some(rng.gen_range(1..5)) }),
+        97 => Rq::Gen(Command::Append(k, sds(rng))),
+        98 => Rq::Gen(Command::Del(c.some(rng, 1, 2, false))),
+        _ => Rq::Gen(Command::LPush(c.d(rng), vec![sds(rng)])),
+    }
+}
+/// several hundred keys that expire together, one tick, then reads through the fast paths FIRST (a
+/// generic command would tell the shard the time), then the aggregate commands
+fn mass_expiry(rng: &mut Rng) -> Vec<Rq> {
+    let n = rng.gen_range(260..420);
+    let ttl = [40i64, 100, 1000][rng.gen_range(0..3)];
+    let name = |i: usize| format!("sess:{}", i);
+    let mut v: Vec<Rq> = Vec::new();
+    for i in 0..n {
+        // a few survive the tick
+        let t = if i % 37 == 5 { ttl * 100 } else { ttl };
+        v.push(Rq::Gen(set_ttl(name(i), SDS::from_str("s"), None, Some(t))));
+    }
+    v.push(Rq::Tick(ttl as u64 + rng.gen_range(0..3)));
+    let mut sample: Vec<usize> = (0..n).collect();
+    sample.shuffle(rng);
+    for &i in sample.iter().take(24) {
+        v.push(match rng.gen_range(0..3) { 0 => Rq::FastGet(name(i)), 1 => Rq::PooledGet(name(i)), _ => Rq::PipeGet(vec![name(i), name((i + 1) % n)]) });
+    }
+    v.push(Rq::PipeGet((0..n).step_by(3).map(name).collect()));
+    v.push(Rq::Gen(Command::DbSize));
+    v.push(Rq::Gen(Command::Keys("sess:*".into())));
+    v.push(Rq::Gen(Command::Keys("sess:[0-9]".into())));
+    v.push(Rq::Gen(Command::Scan { cursor: 0, pattern: Some("sess:[1-3]*".into()), count: Some(500) }));
+    v.push(Rq::Gen(Command::Exists(sample.iter().take(8).map(|&i| name(i)).collect())));
+    v.push(Rq::Gen(Command::Pttl(name(5))));
+    v.push(Rq::Gen(Command::Ttl(name(sample[0]))));
+    v.push(Rq::Tick(1));
+    v.push(Rq::Gen(Command::DbSize));
+    v
+}
 fn dump_tail(c: &Ctx, wide: bool) -> Vec<Rq> {
     let all = c.all();
     let mut v = vec![Rq::Gen(Command::Keys("*".into())), Rq::Gen(Command::DbSize), Rq::Gen(Command::MGet(all.clone())), Rq::Gen(Command::Exists(all.clone())), Rq::PipeGet(all.clone())];
@@ -542,11 +679,12 @@ fn main() {
     let a: Vec<String> = std::env::args().collect();
     let args = &Args::parse(&a[1..]);
     let mut out = Out::new(&args.out, "C03", args.shards, HEADER);
-    out.nontrivial_rule = "one case = one request sequence (8-30 requests + a KEYS/DBSIZE/MGET/EXISTS/TYPE/GET/LRANGE dump of every key of the case) run on a real 1-shard and a real N-shard ShardedActorState, N drawn from {2,3,16}; all entry paths mixed on 6-10 keys: plain names from two pools that cover every shard of every N plus 1-2 names of unusual shape (hash-tag shapes {a}, x{a}y, {}, {{a}}, shared / differing tags, blanks, CR/LF/NUL/0x7f, multi-byte UTF-8, lengths 7/8/9/15/16/17, 300-500 byte names); every string key is written through one entry path and read back through the other routing function's paths inside the sequence; 'pure' cases use only single-home requests, 'class' cases add two-key / keyless state-dependent commands, 'scan' cases add SCAN with a small COUNT and cursors, 'wide' cases add sets/hashes/zsets/counters (compared 1-vs-N only); every case also carries the routing facts observed by probing (shard-0 membership and co-location under both routing functions) and the raw DefaultHasher values of its keys; non-trivial = the N-shard run touched at least two different shards; distinct by request text".into();
+    out.nontrivial_rule = "one case = one request sequence (8-30 requests + a KEYS/DBSIZE/MGET/EXISTS/TYPE/GET/LRANGE dump of every key of the case) run on a real 1-shard and a real N-shard ShardedActorState, N drawn from {2,3,16}; all entry paths mixed on 6-10 keys: plain names from two pools that cover every shard of every N plus 1-2 names of unusual shape (hash-tag shapes {a}, x{a}y, {}, {{a}}, shared / differing tags, blanks, CR/LF/NUL/0x7f, multi-byte UTF-8, lengths 7/8/9/15/16/17, 300-500 byte names); every string key is written through one entry path and read back through the other routing function's paths inside the sequence; 'pure' cases use only single-home requests, 'class' cases add two-key / keyless state-dependent commands, 'scan' cases add SCAN with a small COUNT and cursors, 'wide' cases add sets/hashes/zsets/counters and 'ttl' cases add SET..PX/EX, EXPIRE/PEXPIRE/PERSIST, TTL/PTTL, clock advances with evict_expired_all_shards ticks and (35 %) a block of 260-420 keys expiring in one tick followed by fast-path reads (both compared 1-vs-N only: time is outside the Coq model); KEYS / SCAN MATCH patterns cover the whole glob grammar of the executor (literals, *, ?, classes with ranges and negation, class-only patterns, degenerate classes); every case also carries the routing facts observed by probing (shard-0 membership and co-location under both routing functions) and the raw DefaultHasher values of its keys; non-trivial = the N-shard run touched at least two different shards; distinct by request text".into();
     if std::env::var("C03_PANICS").is_err() { std::panic::set_hook(Box::new(|_| {})); }
     let rt = tokio::runtime::Builder::new_current_thread().enable_all().build().unwrap();
     let range: Vec<u64> = match args.only { Some(i) => vec![i], None => (0..args.n).collect() };
     let (ps, pd, pe, ped) = (pool_s(), pool_d(), pool_e(), pool_ed());
+    let free_time = args.get("free_time", 0) == 1;
 
     if args.get("nonutf8", 0) == 1 {
         // observation only (not part of the check): a key that is not valid UTF-8
@@ -609,7 +747,7 @@ fn main() {
         for i in range {
             let mut rng = case_rng(args.seed, i);
             let n = SHARD_COUNTS[rng.gen_range(0..SHARD_COUNTS.len())];
-            let flavour = match rng.gen_range(0..100) { 0..=49 => "pure", 50..=69 => "class", 70..=79 => "scan", _ => "wide" };
+            let flavour = match rng.gen_range(0..100) { 0..=44 => "pure", 45..=62 => "class", 63..=72 => "scan", 73..=86 => "wide", _ => "ttl" };
             let wide = flavour == "wide";
             let mut sk = ps.clone();
             sk.shuffle(&mut rng);
@@ -636,9 +774,10 @@ fn main() {
             for _ in 0..len {
                 let r = match flavour {
                     "class" if rng.gen_bool(0.25) => gen_class(&mut rng, &c, false),
-                    "scan" if rng.gen_bool(0.2) => Rq::Gen(Command::Scan { cursor: if rng.gen_bool(0.8) { 0 } else { rng.gen_range(1..4) }, pattern: if rng.gen_bool(0.3) { Some("k*".into()) } else { None }, count: if rng.gen_bool(0.8) { Some(rng.gen_range(1..4)) } else { None } }),
+                    "scan" if rng.gen_bool(0.2) => Rq::Gen(Command::Scan { cursor: if rng.gen_bool(0.8) { 0 } else { rng.gen_range(1..4) }, pattern: if rng.gen_bool(0.5) { Some(gen_pattern(&mut rng, &c)) } else { None }, count: if rng.gen_bool(0.8) { Some(rng.gen_range(1..4)) } else { None } }),
                     "wide" if rng.gen_bool(0.5) => gen_wide(&mut rng, &c),
                     "wide" if rng.gen_bool(0.15) => gen_class(&mut rng, &c, true),
+                    "ttl" if rng.gen_bool(0.75) => gen_ttl(&mut rng, &c, free_time),
                     _ => gen_single_home(&mut rng, &c),
                 };
                 seq.push(r);
@@ -672,6 +811,19 @@ fn main() {
             let tail_part = seq.split_off(at);
             seq.extend(block);
             seq.extend(tail_part);
+            if flavour == "ttl" {
+                if rng.gen_bool(0.35) {
+                    out.count("ttl:mass-expiry-block");
+                    seq.extend(mass_expiry(&mut rng));
+                }
+                // the dump is taken after a tick, and reports TTLs
+                seq.push(Rq::Tick(rng.gen_range(0..200)));
+                for k in c.all() {
+                    seq.push(Rq::FastGet(k.clone()));
+                    seq.push(Rq::Gen(Command::Pttl(k.clone())));
+                    seq.push(Rq::Gen(Command::Ttl(k)));
+                }
+            }
             let len = seq.len();
             for k in ek.iter() {
                 out.count(&format!("name-shape:{}", name_shape(k)));
@@ -687,11 +839,15 @@ fn main() {
             }
 
             // ---- run on the implementation: 1 shard and N shards, fresh instances
-            let one = instance(1);
-            let many = instance(n);
+            let clock = Clock::new();
+            let one = instance_at(1, &clock);
+            let many = instance_at(n, &clock);
             let mut obs1 = Vec::new();
             let mut obsn = Vec::new();
             for r in &seq {
+                if let Rq::Tick(ms) | Rq::Advance(ms) = r {
+                    clock.advance(*ms);
+                }
                 obs1.push(canon(r, run_one(&one, r).await));
                 obsn.push(canon(r, run_one(&many, r).await));
             }
@@ -755,7 +911,9 @@ fn main() {
                     if ks.len() >= 2 && !matches!(cmd, Command::Keys(_)) {
                         for x in &ks {
                             for y in &ks {
-                                pairs_hit.entry(n).or_default().insert((cls[x], cls[y]));
+                                if let (Some(a), Some(b2)) = (cls.get(x), cls.get(y)) {
+                                    pairs_hit.entry(n).or_default().insert((*a, *b2));
+                                }
                             }
                         }
                     }
